@@ -21,6 +21,12 @@ Entry fields
   cost        "cheap" (< ~0.3 s), "medium" (< ~2 s), "heavy" (more) at the generated sizes with CLARABEL
   notes       anything noteworthy
   forwards_solver  (optional, False) the example ignores its wrapper/solver arguments (or does not have them)
+  rtol_hint   (optional) relative tolerance to use instead of 1e-3 (the test itself is looser, or the reference table is
+              rounded, or CLARABEL is known to be inaccurate on this SDP)
+  gen_restricted (optional) generator limited to the sub-range where the formula is known to match, for the entries
+              whose documented range is listed in SUSPECTS ("gen" keeps the documented range)
+  gen_alt     (optional) generator of a second, also documented-looking, regime that is known to FAIL (see SUSPECTS)
+  compare_to / monotone_in (optional) what the test compares pepit_tau with when there is no theoretical value
 
 `call(entry, kwargs)` runs one example.  SUSPECTS (end of file) lists the cases where an example disagrees with
 its own documented formula inside its documented range (found while validating this table with CLARABEL).
@@ -112,14 +118,14 @@ def _pos(rng, lo=0.1, hi=10.0):
     return _logu(rng, lo, hi)
 
 
-FLOOR = 1e-4
+FLOOR = 1e-3
 
 
 def _accept(rng, draw, value, floor=FLOOR, tries=50):
     """Redraw until the (dimensionless) theoretical value is >= floor.
 
     Numerical guard only: CLARABEL returns values with an absolute accuracy of about 1e-8..1e-7 on normalised
-    problems, so a 1e-3 RELATIVE comparison is meaningless when the rate itself is below ~1e-4 (typically
+    problems, so a 1e-3 RELATIVE comparison is unreliable when the rate itself is below ~1e-3 (typically
     mu/L close to 1 together with several iterations).  The entries using it say so in "notes".
     """
     kw = draw(rng)
@@ -217,8 +223,8 @@ def gen_gradient_descent(rng):
 
 
 def _draw_gradient_descent_lc(rng):
-    Lg = 1.0 if rng.random() < 0.2 else _logu(rng, 0.5, 3.0)
-    LM = 1.0 if rng.random() < 0.2 else _logu(rng, 0.7, 1.5)
+    Lg = 1.0 if rng.random() < 0.2 else _logu(rng, 0.7, 2.0)
+    LM = 1.0 if rng.random() < 0.2 else _logu(rng, 0.8, 1.25)
     typeM = rng.choice(["gen", "sym", "skew"])
     muM = 0.0
     if typeM == "sym" and rng.random() < 0.7:
@@ -438,7 +444,7 @@ def gen_accelerated_proximal_gradient_method(rng):
 
 def gen_accelerated_douglas_rachford_splitting(rng):
     L = _L(rng)
-    return {"mu": _kappa(rng) * L, "L": L, "alpha": _unit(rng, closed_right=False) / L, "n": _n(rng, 1, 4)}
+    return {"mu": _kappa(rng) * L, "L": L, "alpha": _unit(rng, closed_right=False, lo=1e-2) / L, "n": _n(rng, 1, 4)}
 
 
 def gen_bregman_proximal_point_method(rng):
@@ -736,7 +742,7 @@ def _E(name, module, func, kind, base, gen, range_doc, cost, notes="", tol="rel"
 
 
 _SQ = math.sqrt
-_FL = "gen redraws when the (dimensionless) theoretical value is below 1e-4: numerical guard only, see _accept"
+_FL = "gen redraws when the (dimensionless) theoretical value is below 1e-3: numerical guard only, see _accept"
 
 EXAMPLES = [
     _E("optimized_gradient", _U, "wc_optimized_gradient", "tight",
@@ -767,9 +773,11 @@ EXAMPLES = [
        "'skew' although the docstring says muM must be 0 there (the class ignores it, the formula uses it only "
        "through the projection of M*). mug = 0 (documented as admissible) raises ZeroDivisionError (h0 = x / "
        "kappa_g), see SUSPECTS. The formula relies on scipy fsolve started at 0.5. RESTRICTED FOR NUMERICAL REASONS: "
-       "gen keeps Lg in [0.5, 3], LM in [0.7, 1.5] and redraws when the theoretical value is below 1e-3 L; with worse "
-       "scalings (e.g. Lg LM^2 ~ 0.1) CLARABEL returns 'optimal_inaccurate' and pepit_tau is off by up to 0.7% while "
-       "the rescaled problem (Lg = LM = 1, gamma L fixed) agrees to 3e-4.",
+       "gen keeps Lg in [0.7, 2], LM in [0.8, 1.25] and redraws when the theoretical value is below 1e-3 L. CLARABEL "
+       "often returns 'optimal_inaccurate' on this SDP: with Lg LM^2 ~ 0.1 pepit_tau is off by up to 0.7%, with "
+       "Lg LM^2 ~ 1.9 by 2.2e-3 and in rare cases by 6e-3, while the rescaled problem (Lg = LM = 1, gamma L fixed) "
+       "agrees to 3.5e-4; inside the gen range pepit_tau exceeds theoretical_tau by 1e-5..1.2e-3 (always in excess; "
+       "see SUSPECTS) and CLARABEL raises SolverError for ~1 draw in 15; hence rtol_hint.", rtol_hint=3e-3,
        bases=[{"mug": .3, "Lg": 3, "typeM": t, "muM": 0.1, "LM": 1., "gamma": 1 / 3, "n": 3}
               for t in ("gen", "sym", "skew")],
        forwards_solver=False),
@@ -879,7 +887,8 @@ EXAMPLES = [
     _E("inexact_accelerated_gradient_1", _U, "wc_inexact_accelerated_gradient", "tight",
        {"L": 3, "epsilon": 0, "n": 5}, gen_inexact_accelerated_gradient_1,
        "epsilon = 0 (docstring: 'When epsilon=0, a tight empirical guarantee'), L > 0, n >= 1", "cheap",
-       "the test uses a relaxed relative tolerance 1e-2 ('ill conditioning of this specific SDP (no Slater point)')"),
+       "the test uses a relaxed relative tolerance 1e-2 ('ill conditioning of this specific SDP (no Slater point)'); "
+       "with CLARABEL the relative error reaches 1.1e-3 (L = 0.1, n = 5)", rtol_hint=1e-2),
     _E("inexact_accelerated_gradient_2", _U, "wc_inexact_accelerated_gradient", "lower",
        {"L": 2, "epsilon": .01, "n": 5}, gen_inexact_accelerated_gradient_2,
        "epsilon in (0, 0.05] (docstring: 0 <= epsilon <= 1; small-epsilon regime), L > 0, n >= 1", "cheap",
@@ -888,7 +897,8 @@ EXAMPLES = [
     _E("inexact_accelerated_gradient_3", _U, "wc_inexact_accelerated_gradient", "lower",
        {"L": 2, "epsilon": .1, "n": 5}, gen_inexact_accelerated_gradient_3,
        "epsilon in [0.05, 1] (docstring: 0 <= epsilon <= 1), L > 0, n >= 1", "cheap",
-       "same as _2, larger epsilon; at epsilon = 1 the direction may vanish"),
+       "same as _2, larger epsilon; at epsilon = 1 the direction may vanish; the pinned tuple takes ~7 s with "
+       "CLARABEL"),
     _E("heavy_ball_momentum", _U, "wc_heavy_ball_momentum", "upper",
        {"mu": .1, "L": 1, "alpha": 1 / 2, "beta": _SQ((1 - .5 * .1) * (1 - 1 * .5)), "n": 3}, gen_heavy_ball_momentum,
        "alpha in (0, 1/L], beta = sqrt((1 - alpha mu)(1 - L alpha)), 0 < mu < L (docstring, [2, Thm 4])", "cheap",
@@ -1094,7 +1104,7 @@ EXAMPLES = [
     _E("accelerated_inexact_forward_backward", _IP, "wc_accelerated_inexact_forward_backward", "upper",
        {"L": 10, "zeta": .87, "n": 10}, gen_accelerated_inexact_forward_backward,
        "zeta in (0, 1) (docstring), L > 0, n >= 1 (upper bound [1, Cor. 3.5])", "medium",
-       "the pinned n = 10 is heavy; the test asserts wc <= theory"),
+       "the pinned n = 10 takes ~14 s with CLARABEL; the test asserts wc <= theory"),
     _E("partially_inexact_douglas_rachford_splitting", _IP, "wc_partially_inexact_douglas_rachford_splitting", "tight",
        {"mu": 1, "L": 5., "n": 5, "gamma": 1.4, "sigma": 0.2}, gen_partially_inexact_douglas_rachford_splitting,
        "0 < mu < L, gamma > 0, sigma in [0, 0.9] (docstring gives no range for sigma; [2, Thm 5.1] needs "
@@ -1102,7 +1112,8 @@ EXAMPLES = [
     _E("relatively_inexact_proximal_point_algorithm", _IP, "wc_relatively_inexact_proximal_point_algorithm", "upper",
        {"n": 5, "gamma": 2, "sigma": 0.3}, gen_relatively_inexact_proximal_point_algorithm,
        "gamma > 0, sigma in [0, 1] (docstring: 'sigma >= 0'; the formula needs sigma <= 1), n >= 1", "medium",
-       "'(empirical) upper bound'; the test asserts wc <= theory"),
+       "'(empirical) upper bound'; the test asserts wc <= theory; equality at sigma = 0; the pinned tuple takes "
+       "~3 s with CLARABEL"),
     _E("accelerated_gradient_flow_convex", _CT, "wc_accelerated_gradient_flow_convex", "tight",
        {"t": 3.4}, gen_accelerated_gradient_flow_convex, "t > 0 (docstring: tight, d/dt V <= 0)", "cheap",
        "theoretical_tau = 0; no initial condition (homogeneous problem); absolute tolerance 5e-5 in the test",
@@ -1192,4 +1203,75 @@ def holds(entry, pepit, theory, rtol=1e-3, atol=5e-5):
     return None
 
 
-SUSPECTS = []
+# ----------------------------------------------------------------------------------------------------------------
+# Cases where an example disagrees with its own documentation inside the documented range.
+# Numbers obtained with solver="CLARABEL" (cvxpy 1.9.2), verbose=-1, through call().
+#   category "formula"     : the returned theoretical_tau is not what the docstring claims it is on that range
+#            "crash"       : a documented admissible value raises
+#            "doc_vs_code" : the docstring formula differs from the formula in the code (the code one matches pepit_tau)
+#            "rounding"    : hard-coded reference table rounded too coarsely for a 1e-3 relative check
+#            "numerical"   : small systematic excess, solver reports optimal_inaccurate (cannot tell the conjecture
+#                            from the solver)
+# ----------------------------------------------------------------------------------------------------------------
+SUSPECTS = [
+    {"name": "gradient_descent_non_convex", "category": "formula",
+     "kwargs": {"L": 1, "gamma": 0.5, "n": 3}, "pepit": 0.7619047637, "theory": 0.4444444444,
+     "why": "Docstring: 'When gamma <= 1/L, an empirically tight theoretical worst-case guarantee is 4/3 L/n'. The "
+            "value does not depend on gamma and is only attained at gamma = 1/L; for every gamma < 1/L pepit_tau is "
+            "LARGER (gamma L = 0.25: 1.42222, 0.5: 0.761905, 0.9: 0.477897, 0.99: 0.447442, 1.0: 0.444444 for "
+            "L = 1, n = 3), so the returned value is not even an upper bound on the documented range."},
+    {"name": "gradient_descent_non_convex_low_dim", "category": "formula",
+     "kwargs": {"L": 1, "gamma": 0.5, "n": 3}, "pepit": 0.7619047637, "theory": 0.4444444444,
+     "why": "Same docstring and same formula as nonconvex_optimization.wc_gradient_descent (low-dimensional variant)."},
+    {"name": "subgradient_method", "category": "formula",
+     "kwargs": {"M": 2, "n": 4, "gamma": 0.11180339887498948}, "pepit": 0.9214050479, "theory": 0.8944271910,
+     "why": "The docstring calls M/sqrt(n+1) 'the tight bound' without any condition on the argument gamma; it is the "
+            "worst case only for gamma = 1/(M sqrt(n+1)) (0.223607 here: pepit 0.894427). With gamma halved pepit is "
+            "0.921405, doubled 1.090794, x4 1.813680, /4 1.132237: the returned value is then smaller than pepit_tau."},
+    {"name": "improved_interior_algorithm", "category": "formula",
+     "kwargs": {"L": 3, "mu": 0.2, "c": 2, "lam": 0.2 / 3, "n": 4}, "pepit": 0.3145139918, "theory": 0.24,
+     "why": "The docstring announces the upper bound of [1, Thm 5.2] (stated for lam = sigma/L, sigma = mu the strong "
+            "convexity of h) but the returned 4L/(c (n+1)^2) contains neither mu nor lam. With lam = mu/L and mu < 1 "
+            "pepit_tau (= c_n/c of the scalar recursion) exceeds it: also {L:1, mu:0.25, c:1, lam:0.25, n:3} gives "
+            "0.300241 > 0.25 and {L:3, mu:0.3774, c:2.327, lam:0.1258, n:4} gives 0.208959 > 0.206309. It is an upper "
+            "bound when lam = 1/L (and mu >= 1 so that the method is covered by the theorem); no range is documented."},
+    {"name": "sgd", "category": "formula",
+     "kwargs": {"L": 1, "mu": 0.1, "gamma": 1, "v": 1, "R": 2, "n": 1}, "pepit": 3.2400000090, "theory": 5.0416523285,
+     "why": "Docstring: 'the guarantee does not depend on the number n of functions'. With n = 1 the variance at x* "
+            "is necessarily 0 and pepit_tau = (1 - mu/L)^2 R^2 = 3.24 < 5.04165 (n = 2, 3, 5 give 5.04165). Also seen "
+            "with {L:0.1, mu:0.006444, gamma:10, v:2.184, R:2.993, n:1}: 7.84132 vs 542.04."},
+    {"name": "wc_optimal_strongly_monotone_proximal_point_operators", "category": "crash",
+     "kwargs": {"n": 3, "mu": 0}, "pepit": None, "theory": None,
+     "why": "Args documents 'mu >= 0' but mu = 0 raises ZeroDivisionError (phi() divides by (1+2mu)^2 - 1, and the "
+            "formula by (1+2mu)^n - 1). mu = 1e-6 works: 0.1111107 vs 0.1111107 (limit 1/n^2)."},
+    {"name": "wc_optimal_contractive_halpern_iteration", "category": "crash",
+     "kwargs": {"n": 3, "gamma": 1}, "pepit": None, "theory": None,
+     "why": "Args documents 'gamma >= 1' but gamma = 1 raises ZeroDivisionError (phi divides by gamma^2 - 1, the "
+            "formula by gamma^(n+1) - 1). gamma = 1.000001 works: 0.249999 vs 0.249999 (Halpern limit (2/(n+1))^2)."},
+    {"name": "gradient_descent_lc", "category": "crash",
+     "kwargs": {"mug": 0.0, "Lg": 1.0, "typeM": "gen", "muM": 0.0, "LM": 1.0, "gamma": 1.0, "n": 2},
+     "pepit": None, "theory": None,
+     "why": "Docstring: valid for '0 <= mu_g <= L_g', but mug = 0 raises ZeroDivisionError (h0 = x / kappa_g) after "
+            "the SDP has been solved."},
+    {"name": "gradient_descent_lc", "category": "numerical",
+     "kwargs": {"mug": 0.0137, "Lg": 0.7274, "typeM": "sym", "muM": 0.2719, "LM": 0.8332, "gamma": 0.5262, "n": 3},
+     "pepit": 0.0963896043, "theory": 0.0962735301, "rel": 1.2e-3,
+     "why": "Conjectured-tight value [1, Conj. 4.2]: pepit_tau is ALWAYS slightly above theoretical_tau (relative excess "
+            "1e-5 .. 1.2e-3 over 40 draws with Lg in [0.7,2], LM in [0.8,1.25]; 8e-4 still for Lg = LM = 1), CLARABEL "
+            "status is optimal_inaccurate on this SDP (LMI of the linear-operator class); up to 6e-3 for less "
+            "favourable scalings, e.g. {mug:0.5653, Lg:1.861, typeM:'sym', muM:0, LM:0.8521, gamma:0.5659, n:3}: "
+            "0.075158 vs 0.0747011. The test itself uses 2e-3. Base tuples pass at 1e-3 with CLARABEL and fail with "
+            "the default SCS (3.0e-3 for 'gen')."},
+    {"name": "douglas_rachford_splitting", "category": "rounding",
+     "kwargs": {"L": 1, "alpha": 1, "theta": 1, "n": 7}, "pepit": 0.0357449687, "theory": 0.0357,
+     "why": "theoretical_tau comes from a 4-digit PESTO table: relative difference 1.26e-3 at n = 7 (0.95e-3 at n = 8, "
+            "<= 4.8e-4 for the other n in 1..10)."},
+    {"name": "triple_momentum", "category": "doc_vs_code",
+     "kwargs": {"mu": 0.1, "L": 1, "n": 4}, "pepit": 0.2389250598, "theory": 0.2389250554,
+     "why": "Docstring formula rho^(2(n+1)) L kappa / 2 = 0.111707 here; the code returns rho^(2n) L kappa / 2 = "
+            "0.238925 which is what pepit_tau matches (factor rho^2 between the two)."},
+    {"name": "krasnoselskii_mann_constant_step_sizes", "category": "doc_vs_code",
+     "kwargs": {"n": 3, "gamma": 0.97}, "pepit": 0.6898697806, "theory": 0.6898697811,
+     "why": "Second regime: docstring (gamma - 1)^(2n) = 7.3e-10 here; the code returns (2 gamma - 1)^(2n) = 0.68987 "
+            "which is what pepit_tau matches."},
+]
